@@ -1292,8 +1292,13 @@ class Exec(object):
         self.key_universe.add(e.attr)
 
         def getattr_(x, o):
-            self.raise_if(x, ctx, z3.Not(is_Ref(o)), "AttributeError", node=e)
-            return self.close_refs(BI.hget(self, x, rval(o), sv(e.attr)))
+            if BI.static_tag(o) == "opq":
+                return VOpq(fresh("opqattr_" + e.attr, I))          # attribute of an external object: opaque (A2)
+            self.raise_if(x, ctx, z3.Not(z3.Or(is_Ref(o), is_Opq(o))), "AttributeError", node=e)
+            got = self.close_refs(BI.hget(self, x, rval(o), sv(e.attr)))
+            if BI.static_tag(o) == "ref":
+                return got
+            return z3.If(is_Opq(o), VOpq(fresh("opqattr_" + e.attr, I)), got)
         return BI.ref_split(self, st, ctx, v, getattr_)
 
     def external_value(self, dn, ext, st, ctx):
@@ -1670,10 +1675,10 @@ class Exec(object):
         elif c.modifies_ast:
             st.heap = self.havoc_refs(st.heap, c.modifies_ast, pre, fid, spec_unit)
         # result
-        if c.fresh_result in ("dict", "list", "tuple"):
-            kind = {"dict": T_DICT, "list": T_LIST, "tuple": T_TUPLE}[c.fresh_result]
+        if c.fresh_result in ("dict", "list", "tuple", "obj"):
+            kind = {"dict": T_DICT, "list": T_LIST, "tuple": T_TUPLE, "obj": T_OBJ}[c.fresh_result]
             r = self.new_ref(kind)
-            if kind == T_DICT:
+            if kind in (T_DICT, T_OBJ):
                 st.heap = Heap(z3.Store(st.heap.DV, r, fresh("rv", KV)), z3.Store(st.heap.DP, r, fresh("rp", KP)),
                                st.heap.LS)
             else:
